@@ -145,7 +145,7 @@ TrOutputLimited ==
 
 \* ---- a database object is queried again (C03): the index must be the one built before
 TrNewLookup == /\ HasEvent("NewLookup")
-               /\ NewLookup(E.seqs2, E.k)
+               /\ NewLookup(E.seqs2, E.k, E.mode)
                /\ Consume(Named([db_mutated |-> E.db_changed]))
 
 TraceNext == TrCheckInput \/ TrSdBuildSilent \/ TrBuild \/ TrJoin \/ TrJoinLimited \/ TrOutput \/ TrOutputLimited \/ TrNewLookup
